@@ -117,10 +117,10 @@ def initFFTSkew (T : LUTs) : Skew := Id.run do
     skew := skew.set! ((1 <<< m) - 1) 0
     for i in [m:bits - 1] do
       let s := 1 <<< (i + 1)
-      let mut j := (1 <<< m) - 1
-      while j < s do
+      -- Go: `for j := 1<<m - 1; j < s; j += step` — exactly `s / step = 2^(i-m)` iterations (`m ≤ i`)
+      for q in [0:s / step] do
+        let j := (1 <<< m) - 1 + q * step
         skew := skew.set! (j + s) (skew[j]! ^^^ temp[i]!)
-        j := j + step
     let tm := temp[m]!
     temp := temp.set! m (modulus - T.log[mulLog P T tm T.log[tm ^^^ 1]!]!)
     for i in [m + 1:bits - 1] do
